@@ -67,6 +67,36 @@ def validate_nfkc_bold(chk):
         chk.case(("mince", k), nontrivial=(want != k))
         if out != want:
             chk.disagree("Valid.Mince.rewrite_ident (as evaluated by the harness) vs ast.unparse after hy.compat", k, want, out)
+        # list-of-strings fields (Global.names): minced iff the regenerated flag says so
+        g = ast.Module(body=[ast.Global(names=[k, "zq"])], type_ignores=[])
+        try:
+            out2 = ast.unparse(g)
+        except Exception as e:
+            out2 = "raises " + type(e).__name__
+        want2 = "global %s, zq" % (want if x["lists"] else k)
+        chk.count("corr:mince-list-field-vs-real-unparse")
+        if out2 != want2:
+            chk.disagree("Valid.Mince.rewrite_field (list of names) vs ast.unparse after hy.compat", k, want2, out2)
+    # negative constants: the model's negconst against the real transformation
+    for v, kind in ((-2, "int"), (-1.5, "float"), (-0.0, "float"), (float("-inf"), "float"), (-2j, "complex"), (2, "int"), (0.0, "float")):
+        e = ast.Expression(body=ast.BinOp(left=ast.Constant(v), op=ast.Pow(), right=ast.Constant(2)))
+        out = ast.unparse(e)
+        import math
+        neg = math.copysign(1, v.imag if kind == "complex" else v) < 0
+        handled = kind in x["neg_types"]
+        left = ast.parse(out, mode="eval").body.left
+        wrapped = isinstance(left, ast.UnaryOp) and isinstance(left.op, ast.USub) and isinstance(left.operand, ast.Constant)
+        chk.count("corr:negconst-vs-real-unparse")
+        chk.case(("negconst", repr(v)), nontrivial=neg)
+        if wrapped != (neg and handled):
+            chk.disagree("Valid.Mince.negconst vs ast.unparse after hy.compat", repr(v), "parenthesised negation: %s" % (neg and handled), out)
+        if neg and handled:
+            try:
+                same = repr(eval(out)) == repr(v ** 2)
+            except Exception:
+                same = False
+            if not same:
+                chk.fail("negative-constant-printed-with-another-value", {"python": out, "constant": repr(v)}, out, repr(v ** 2), "ast.unparse of BinOp(Constant(v), Pow, Constant(2))")
 
 
 # ------------------------------------------------------------------ known defects of the unchanged tree
@@ -121,11 +151,11 @@ def constant_name_matcher(rec, params):
     return re.search(r"\.%s\b|\b%s=|^(global|nonlocal|import) (\w+, )*%s\b|\bas %s\b|^def \w+\([^)]*\b%s\b|lambda [^:]*\b%s\b" % ((c,) * 6), line) is not None
 
 
-def negative_literal_matcher(rec, params):
-    """a negative numeric literal is compiled to Constant(-n); ast.unparse prints it without parentheses, so `-1 ** 2`,
-    `-5 .bit_length()`, `-1[...]` bind differently in the printed source"""
+def negative_imaginary_matcher(rec, params):
+    """a negative *imaginary* literal is still compiled to Constant(-nj) and printed without parentheses (NegativeConstants
+    handles int and float only): `-1j ** 2`, `-2j.conjugate()`, `-1j.real`"""
     import re
-    pat = r"(?<![\w.)\]])-\d[\d_.]*(e[+-]?\d+)?j?(\s*\*\*|\s*\.\s*[A-Za-z_]|\[)"
+    pat = r"(?<![\w.)\]])-\d[\d_.]*(e[+-]?\d+)?j(\s*\*\*|\s*\.\s*[A-Za-z_]|\[)"
     py = rec.get("input", {}).get("python", "")
     if rec.get("key", "").startswith("behaviour-differs:"):
         return re.search(pat, py) is not None
@@ -249,52 +279,68 @@ def localise(a, b):
     return "dumps equal up to length %d/%d" % (len(da), len(db))
 
 
+def judge_program(chk, hy, src, i, tag="behaviour"):
+    """one program: unparsed source must parse, and behave like the compiled AST"""
+    modname = "zq_c14_%d" % i
+    mod = types.ModuleType(modname)
+    sys.modules[modname] = mod
+    try:
+        with warnings.catch_warnings():
+            warnings.simplefilter("ignore")
+            try:
+                tree = hy.compiler.hy_compile(hy.read_many(src), mod, source=src, filename="<c14>")
+                code1 = compile(tree, "<c14>", "exec")
+            except Exception as e:
+                chk.count("filtered:does-not-compile:" + type(e).__name__)
+                return
+            how = "PYTHONPATH=%s hy2py on the program, then run both; program: %r" % (vlib.REPO, src)
+            try:
+                py = ast.unparse(tree)
+            except Exception as e:
+                chk.fail("unparse-raises:" + type(e).__name__, {"program": src}, str(e)[:200], "Python source", how)
+                return
+            try:
+                reparsed = ast.parse(py)
+                code2 = compile(reparsed, "<c14>", "exec")
+            except Exception as e:
+                chk.fail("unparsed-source-does-not-parse:" + type(e).__name__, {"program": src, "python": py}, str(e)[:200],
+                         "source that parses and compiles", how)
+                return
+    finally:
+        sys.modules.pop(modname, None)
+    o1 = observe(code1, "zq_c14_run")
+    o2 = observe(code2, "zq_c14_run")
+    chk.count(tag + ":programs")
+    chk.count(tag + ":exception:" + str(o1["exception"]))
+    chk.case(("prog", src), nontrivial=len(o1["log"]) > 0 or tag == "corpus",
+             sample={"program": src, "python": py[:400], "log_events": len(o1["log"]), "exception": o1["exception"]}
+             if i % 251 == 3 else None)
+    for field in ("log", "exception", "globals", "stdout"):
+        if o1[field] != o2[field]:
+            chk.fail("behaviour-differs:" + field, {"program": src, "python": py, "where": localise(tree, reparsed)},
+                     {"compiled_ast": o1[field] if field != "log" else o1[field][:30],
+                      "unparsed_source": o2[field] if field != "log" else o2[field][:30]},
+                     "equal " + field, how)
+            break
+
+
+def corpus_first(chk, hy):
+    """minimised past failures (corpus/C14/cases.json), run before anything generated"""
+    import json
+    import os
+    path = os.path.join(vlib.VERIF, "corpus", "C14", "cases.json")
+    if not os.path.exists(path):
+        return
+    for i, c in enumerate(json.load(open(path))):
+        before = len(chk.failures) + len(chk.known_hits)
+        judge_program(chk, hy, c["source"], 900000 + i, tag="corpus")
+
+
 def behaviour_oracle(chk, hy, n):
     rng = chk.rng
     gen = run_gen.RG(rng)
     for i in range(n):
-        src = gen.program()
-        modname = "zq_c14_%d" % i
-        mod = types.ModuleType(modname)
-        sys.modules[modname] = mod
-        try:
-            with warnings.catch_warnings():
-                warnings.simplefilter("ignore")
-                try:
-                    tree = hy.compiler.hy_compile(hy.read_many(src), mod, source=src, filename="<c14>")
-                    code1 = compile(tree, "<c14>", "exec")
-                except Exception as e:
-                    chk.count("filtered:does-not-compile:" + type(e).__name__)
-                    continue
-                how = "PYTHONPATH=%s hy2py on the program, then run both; program: %r" % (vlib.REPO, src)
-                try:
-                    py = ast.unparse(tree)
-                except Exception as e:
-                    chk.fail("unparse-raises:" + type(e).__name__, {"program": src}, str(e)[:200], "Python source", how)
-                    continue
-                try:
-                    reparsed = ast.parse(py)
-                    code2 = compile(reparsed, "<c14>", "exec")
-                except Exception as e:
-                    chk.fail("unparsed-source-does-not-parse:" + type(e).__name__, {"program": src, "python": py}, str(e)[:200],
-                             "source that parses and compiles", how)
-                    continue
-        finally:
-            sys.modules.pop(modname, None)
-        o1 = observe(code1, "zq_c14_run")
-        o2 = observe(code2, "zq_c14_run")
-        chk.count("behaviour:programs")
-        chk.count("behaviour:exception:" + str(o1["exception"]))
-        chk.case(("prog", src), nontrivial=len(o1["log"]) > 0,
-                 sample={"program": src, "python": py[:400], "log_events": len(o1["log"]), "exception": o1["exception"]}
-                 if i % 251 == 3 else None)
-        for field in ("log", "exception", "globals", "stdout"):
-            if o1[field] != o2[field]:
-                chk.fail("behaviour-differs:" + field, {"program": src, "python": py, "where": localise(tree, reparsed)},
-                         {"compiled_ast": o1[field] if field != "log" else o1[field][:30],
-                          "unparsed_source": o2[field] if field != "log" else o2[field][:30]},
-                         "equal " + field, how)
-                break
+        judge_program(chk, hy, gen.program(), i)
 
 
 def parse_oracle(chk, hy, n):
@@ -392,17 +438,22 @@ def run(chk):
     chk.matchers["c14_constant_name"] = constant_name_matcher
     chk.matchers["c14_import_dot"] = import_dot_matcher
     chk.matchers["c14_starred_annotation"] = starred_annotation_matcher
-    chk.matchers["c14_negative_literal"] = negative_literal_matcher
+    chk.matchers["c14_negative_imaginary"] = negative_imaginary_matcher
     chk.matchers["c14_except_without_type"] = except_without_type_matcher
     thorough = chk.tier == "thorough"
     ok = chk.prove("Props/C14.v", ["Props/C14.vo"], [valid_keywords.translate])
     hy = vlib.use_repo_in_process()
     import hy.compiler  # noqa
-    validate_nfkc_bold(chk)
+    # a broken tie (translator / proof) must not stop the search for a failing input: everything below runs regardless
+    try:
+        validate_nfkc_bold(chk)
+    except Exception as e:
+        chk.obligation("mincing model vs real ast.unparse, NFKC hypothesis", False, "%s: %s" % (type(e).__name__, str(e)[:500]))
     chk.rule = ("behaviour: seeded random programs (2-7 top-level forms, depth <= 4) executed twice -- compile(hy_compile(p)) "
                 "and compile(ast.parse(ast.unparse(hy_compile(p)))); parse: every tree of the C10 generator (no compile-time "
                 "heads) that the compiler accepts; hy2py: hy2py_worker on program text; non-trivial = program that logs at "
                 "least one event / tree of more than 12 characters")
+    corpus_first(chk, hy)
     behaviour_oracle(chk, hy, 25000 if thorough else 1400)
     parse_oracle(chk, hy, 100000 if thorough else 4500)
     hy2py_end_to_end(chk, hy, 3000 if thorough else 200)
